@@ -116,6 +116,8 @@ std::string Outcome::str() const {
         s += " type=" + hex(etype);
     } else if (kind == OTHER_ERR && status == -2) {
         s += " (virtual_ptr argument holds a v-table pointer that is not its pointee's)";
+    } else if (kind == OTHER_ERR && status == -3) {
+        s += " (copying a virtual_ptr changed the virtual_ptr it was copied from)";
     }
     return s;
 }
